@@ -142,6 +142,12 @@ theorem giveBack_ok {m : Mem} {last : Option Label} {s : Storage} {e : DecErr} {
   unfold giveBack Mem.provision
   rw [if_neg (Ne.symm hcap), if_neg (Nat.not_lt.mpr hsz)]
 
+/-- a give-back exit never reports success -/
+theorem giveBack_res_ne_ok (m : Mem) (last : Option Label) (s : Storage) (e : DecErr) (n : Nat)
+    (x : DecStatus) : (giveBack m last s e n).res ≠ .ok x := by
+  unfold giveBack
+  rcases m.provision s with ⟨(_ | _ | _), m'⟩ <;> simp
+
 /-! ### Complete packet -/
 
 section complete
@@ -307,6 +313,13 @@ theorem saveOut_ok {m2 : Mem} {md : Meta} {n : Nat} {last : Option Label} :
 
 theorem saveOut_err {e : MemErr} {m2 : Mem} {md : Meta} {n : Nat} {last : Option Label} :
     saveOut (.err e, m2) md n last = ⟨.err (.memory e), n, ⟨m2, last⟩⟩ := rfl
+
+/-- the only success through `save_frag` is `Fragmented` with the given metadata -/
+theorem saveOut_res_ok {r : Res MemErr Unit × Mem} {md : Meta} {n : Nat} {last : Option Label}
+    {x : DecStatus} (h : (saveOut r md n last).res = .ok x) : x = .fragmented md := by
+  unfold saveOut at h
+  rcases r with ⟨(_ | _ | _), m2⟩ <;> simp at h
+  exact h.symm
 
 /-- `new_frag` hands the context it was given back unchanged -/
 theorem Mem.newFrag_ctx {m m1 : Mem} {c c' : Ctx} {st : Storage}
@@ -769,44 +782,64 @@ theorem peek_dispatch {buf tail : Bytes} {k : PktType} {lt : LabelType} {g : Nat
 def peekLabel (l : Label) : Res PeekErr PeekOk :=
   if l = .reuse then .err .labelReuse else .ok (.lbl l)
 
-/-- complete packet: the label, or the re-use error; alone or followed by further bytes -/
-theorem peek_completePkt (lbl : Label) (pt : Nat) (pdu rest : Bytes) :
-    peek (completePkt lbl pt pdu ++ rest) = peekLabel lbl := by
-  rw [peek_dispatch (k := .complete) (lt := lbl.type) (g := pdu.length + lbl.len + PROTOCOL_LEN)
-    (tail := be16 pt ++ lbl.bytes ++ pdu ++ rest)
-    (by simp only [completePkt, List.append_assoc]) (by simp)]
-  have hlen : (completePkt lbl pt pdu ++ rest).length = 4 + lbl.len + pdu.length + rest.length := by
-    rw [List.length_append, completePkt_length]; gse_omega
-  have hsl : slice (completePkt lbl pt pdu ++ rest) 4 lbl.len = some lbl.bytes :=
-    slice_at (a := be16 (genHeader .complete lbl.type (pdu.length + lbl.len + PROTOCOL_LEN))
-        ++ be16 pt) (s := lbl.bytes) (c := pdu ++ rest)
-      (by simp only [completePkt, List.append_assoc]) (by simp) lbl.bytes_length.symm
-  generalize completePkt lbl pt pdu ++ rest = B at hlen hsl
+/-- any complete packet — with or without extension headers: header word, a 2-byte type field,
+the label bytes, anything -/
+theorem peek_complete_shape (lbl : Label) (g : Nat) (w tail : Bytes) (hw : w.length = PROTOCOL_LEN) :
+    peek (be16 (genHeader .complete lbl.type g) ++ w ++ lbl.bytes ++ tail) = peekLabel lbl := by
+  rw [peek_dispatch (k := .complete) (lt := lbl.type) (g := g) (tail := w ++ lbl.bytes ++ tail)
+    (by simp only [List.append_assoc]) (by simp)]
+  have hlen : (be16 (genHeader .complete lbl.type g) ++ w ++ lbl.bytes ++ tail).length
+      = 4 + lbl.len + tail.length := by
+    simp only [List.length_append, be16_length, Label.bytes_length, hw, PROTOCOL_LEN]
+  have hsl : slice (be16 (genHeader .complete lbl.type g) ++ w ++ lbl.bytes ++ tail) 4 lbl.len
+      = some lbl.bytes :=
+    slice_at (a := be16 (genHeader .complete lbl.type g) ++ w) (s := lbl.bytes) (c := tail) rfl
+      (by simp [hw]) lbl.bytes_length.symm
+  generalize be16 (genHeader .complete lbl.type g) ++ w ++ lbl.bytes ++ tail = B at hlen hsl
   cases lbl <;>
     simp [peekKind, peekLabel, Label.type, LabelType.len, Label.len, Label.bytes] at hlen hsl ⊢
   · rw [if_neg (by omega), hsl]; rfl
   · rw [if_neg (by omega), hsl]; rfl
 
-/-- first fragment: the label, or the re-use error -/
-theorem peek_firstPkt (lbl : Label) (fid tl pt : Nat) (payload rest : Bytes) :
-    peek (firstPkt lbl fid tl pt payload ++ rest) = peekLabel lbl := by
-  rw [peek_dispatch (k := .first) (lt := lbl.type)
-    (g := FRAG_ID_LEN + TOTAL_LENGTH_LEN + PROTOCOL_LEN + lbl.len + payload.length)
-    (tail := [u8 fid] ++ be16 tl ++ be16 pt ++ lbl.bytes ++ payload ++ rest)
-    (by simp only [firstPkt, List.append_assoc]) (by simp)]
-  have hlen : (firstPkt lbl fid tl pt payload ++ rest).length
-      = 7 + lbl.len + payload.length + rest.length := by
-    rw [List.length_append, firstPkt_length]; gse_omega
-  have hsl : slice (firstPkt lbl fid tl pt payload ++ rest) 7 lbl.len = some lbl.bytes :=
-    slice_at (a := be16 (genHeader .first lbl.type
-          (FRAG_ID_LEN + TOTAL_LENGTH_LEN + PROTOCOL_LEN + lbl.len + payload.length))
-        ++ [u8 fid] ++ be16 tl ++ be16 pt) (s := lbl.bytes) (c := payload ++ rest)
-      (by simp only [firstPkt, List.append_assoc]) (by simp) lbl.bytes_length.symm
-  generalize firstPkt lbl fid tl pt payload ++ rest = B at hlen hsl
+/-- any first fragment — with or without extension headers: header word, 5 bytes (fragment id,
+total length, type field), the label bytes, anything -/
+theorem peek_first_shape (lbl : Label) (g : Nat) (w tail : Bytes)
+    (hw : w.length = FRAG_ID_LEN + TOTAL_LENGTH_LEN + PROTOCOL_LEN) :
+    peek (be16 (genHeader .first lbl.type g) ++ w ++ lbl.bytes ++ tail) = peekLabel lbl := by
+  rw [peek_dispatch (k := .first) (lt := lbl.type) (g := g) (tail := w ++ lbl.bytes ++ tail)
+    (by simp only [List.append_assoc]) (by simp)]
+  have hlen : (be16 (genHeader .first lbl.type g) ++ w ++ lbl.bytes ++ tail).length
+      = 7 + lbl.len + tail.length := by
+    simp only [List.length_append, be16_length, Label.bytes_length, hw, PROTOCOL_LEN, FRAG_ID_LEN,
+      TOTAL_LENGTH_LEN]
+  have hsl : slice (be16 (genHeader .first lbl.type g) ++ w ++ lbl.bytes ++ tail) 7 lbl.len
+      = some lbl.bytes :=
+    slice_at (a := be16 (genHeader .first lbl.type g) ++ w) (s := lbl.bytes) (c := tail) rfl
+      (by simp [hw]) lbl.bytes_length.symm
+  generalize be16 (genHeader .first lbl.type g) ++ w ++ lbl.bytes ++ tail = B at hlen hsl
   cases lbl <;>
     simp [peekKind, peekLabel, Label.type, LabelType.len, Label.len, Label.bytes] at hlen hsl ⊢
   · rw [if_neg (by omega), hsl]; rfl
   · rw [if_neg (by omega), hsl]; rfl
+
+/-- complete packet: the label, or the re-use error; alone or followed by further bytes -/
+theorem peek_completePkt (lbl : Label) (pt : Nat) (pdu rest : Bytes) :
+    peek (completePkt lbl pt pdu ++ rest) = peekLabel lbl := by
+  have h : completePkt lbl pt pdu ++ rest
+      = be16 (genHeader .complete lbl.type (pdu.length + lbl.len + PROTOCOL_LEN)) ++ be16 pt
+        ++ lbl.bytes ++ (pdu ++ rest) := by
+    simp only [completePkt, List.append_assoc]
+  rw [h, peek_complete_shape _ _ _ _ (be16_length pt)]
+
+/-- first fragment: the label, or the re-use error -/
+theorem peek_firstPkt (lbl : Label) (fid tl pt : Nat) (payload rest : Bytes) :
+    peek (firstPkt lbl fid tl pt payload ++ rest) = peekLabel lbl := by
+  have h : firstPkt lbl fid tl pt payload ++ rest
+      = be16 (genHeader .first lbl.type
+          (FRAG_ID_LEN + TOTAL_LENGTH_LEN + PROTOCOL_LEN + lbl.len + payload.length))
+        ++ ([u8 fid] ++ be16 tl ++ be16 pt) ++ lbl.bytes ++ (payload ++ rest) := by
+    simp only [firstPkt, List.append_assoc]
+  rw [h, peek_first_shape _ _ _ _ (by simp)]
 
 /-- intermediate fragment with at least one payload byte (or one byte following): the fragment id -/
 theorem peek_interPkt {fid : Nat} (hfid : fid < 256) (payload rest : Bytes)
